@@ -289,11 +289,15 @@ def run_shard(spec):
                                                   gap=0.4 * spec["T"]), part)
         if spec["transport"] == "tcp":
             # request 1 never gets a connection (every attempt of its budget fails, or all but the last), request 2 connects and meets silence
-            for outcome in ("refused", "unreach", "timeout"):
+            for outcome in ("refused", "unreach", "timeout", "hostunreach"):
                 for nfail in (R + 1, R, 1):
                     for script in (["now"], ["drop", "now"]):
                         run_case(scenario_then_silent("tcp", "tcp", spec["ka"], spec["T"], R, script, connect=[outcome] * nfail), part)
                         part.count("silent_request_after_failed_connections")
+                # ... or request 1 connects, its transmission is lost and the RE-connection for the retransmission fails
+                for pattern in (["ok", outcome], ["ok", outcome, outcome], ["ok", "ok", outcome], ["ok", outcome, "ok"]):
+                    run_case(scenario_then_silent("tcp", "tcp", spec["ka"], spec["T"], R, ["drop", "drop", "now"], connect=pattern), part)
+                    part.count("silent_request_after_failed_connections")
         if spec["transport"] == "udp":
             # the datagram endpoint of request 1 cannot be opened (no route / packet filter), request 2 meets a silent inverter
             for outcome in ("unreach", "perm"):
